@@ -38,10 +38,11 @@ DEVS = {
 }
 
 
-def mc(rep, tier, facets):
+def mc(rep, tier, facets, coverage=True):
+    """coverage=False: skip the -coverage run (the vacuity guard) where another property's check of the same facet already has it"""
     for f in facets:
         cfg = f"MC_Heap_{f}_{tier}.cfg"
-        r = engine.run_tlc("MC_Heap", cfg, coverage=(tier == "quick" and f in ("names", "fp", "tables")), timeout=2400,
+        r = engine.run_tlc("MC_Heap", cfg, coverage=(coverage and tier == "quick" and f in ("names", "fp", "tables")), timeout=2400,
                            workers=8 if tier == "quick" else 16)
         rep.add_mc(r, f"SerifHeap facet {f}: all histories within the bound; invariants + action properties")
         never = [a for a, (d, t) in r.coverage.items() if t == 0 and a not in ("Init",)]
